@@ -85,7 +85,9 @@ int main(int argc, char** argv) {
             int done = 0;
             for (int c = 0; c < h_n_components && !done; c++)
                 if (h_components[c]->replay) done = h_components[c]->replay(&h, &l);
-            if (!done) { fprintf(stderr, "no component replays op %s\n", l.op); return 2; }
+            /* an operation that cannot be re-executed from its line alone (it needs a whole generated file, a schedule, ...)
+             * is skipped with a note: a corpus may hold such lines; re-run the generator with the seed to reproduce them */
+            if (!done) fprintf(h.out, "# not replayable from the line alone: %s\n", l.op);
             h_free_line(&l);
             free(line);
         }
